@@ -88,7 +88,7 @@ M("C03", "filter-lt-twin", "driver/accessor.py", "if intersection_end - intersec
 M("C03", "old-raw", "driver/accessor.py", "old_value = self._get_value(previous)", "old_value = self._get_raw_value(previous)", rule="R3")
 M("C03", "no-equality-test", "driver/accessor.py", "        if new_value == old_value:\n            return\n", "", rule="R3")
 M("C03", "swap-old-new", "driver/accessor.py", "self._on_change(self, old_value, new_value)", "self._on_change(self, new_value, old_value)", rule="R3")
-M("C03", "watch-no-dedup", "driver/observable.py", "        if observer in self._observers:", "        if False:", rule="R5")
+M("C03", "watch-no-dedup", "driver/observable.py", "        if observer in self._observers:\n            _LOGGER.warning(", "        if False:\n            _LOGGER.warning(", rule="R5")
 M("C03", "notify-before-swap", "driver/async_spastruct.py",
   "        self._status_block = (\n            self._status_block[0:offset]\n            + segment\n            + self._status_block[offset + segment_len :]\n        )\n        # Notify changes to accessors\n        for accessor in self.accessors.values():\n            accessor.status_block_changed(offset, segment_len, previous_block)\n",
   "        # Notify changes to accessors\n        for accessor in self.accessors.values():\n            accessor.status_block_changed(offset, segment_len, previous_block)\n        self._status_block = (\n            self._status_block[0:offset]\n            + segment\n            + self._status_block[offset + segment_len :]\n        )\n", rule="R1")
@@ -390,3 +390,28 @@ M("C07", "rferr-claims-verb-anywhere", "driver/protocol/rferr.py", "        retu
 M("C04", "rferr-claims-verb-anywhere", "driver/protocol/rferr.py", "        return received_bytes.startswith(RFERR_VERB)", "        return RFERR_VERB in received_bytes", rule="R1")
 M("C11", "heater-both-flags-unmapped", "automation/heater.py", "            if self._heating_action_sensor.is_on:\n                return GeckoConstants.WATER_HEATER_HEATING\n            elif self._cooling_action_sensor.is_on:",
   "            if self._heating_action_sensor.is_on and self._cooling_action_sensor.is_on:\n                raise KeyError((True, True))\n            if self._heating_action_sensor.is_on:\n                return GeckoConstants.WATER_HEATER_HEATING\n            elif self._cooling_action_sensor.is_on:", rule="R8")
+
+# --------------------------------------------------------------------------- round 10 rules
+M("C01", "discard-consumer-unpacks-pop", "driver/protocol/unhandled.py", "                    data, sender = protocol.queue.head\n                    protocol.queue.pop()",
+  "                    data, sender = protocol.queue.pop()", rule="R9")
+M("C01", "discard-consumer-head-then-pop-twin", "driver/protocol/unhandled.py", "                    data, sender = protocol.queue.head\n                    protocol.queue.pop()",
+  "                    head = protocol.queue.head\n                    data, sender = head\n                    protocol.queue.pop()", expect="silent")
+M("C02", "send-queue-pops-the-tail", "driver/udp_socket.py", "                    send_handler = self._send_handlers.pop(0)", "                    send_handler = self._send_handlers.pop()", rule="R13")
+M("C05", "async-send-path-rate-gate-drops", "driver/async_udp_protocol.py", "        assert self.transport is not None\n        if destination is None:",
+  "        assert self.transport is not None\n        import time as _t\n        if _t.monotonic() - getattr(self, \"_last_tx\", 0.0) < 0.02:\n            return\n        self._last_tx = _t.monotonic()\n        if destination is None:", rule="R12")
+M("C07", "watercare-waiter-also-takes-wcerr", "driver/protocol/watercare.py", "            or received_bytes.startswith(WCSET_VERB)\n", "            or received_bytes.startswith(WCSET_VERB)\n            or received_bytes.startswith(WCERR_VERB)\n", rule="R10")
+M("C08", "rf-error-event-reuses-500", "spa_events.py", "    ERROR_RF_ERROR = 502", "    ERROR_RF_ERROR = 500", rule="I12")
+M("C08", "rf-error-event-renumbered-twin", "spa_events.py", "    ERROR_RF_ERROR = 502", "    ERROR_RF_ERROR = 503", expect="silent")
+M("C10", "tidy-partitions-across-a-wait", "async_tasks.py", "                self._tasks = [task for task in self._tasks if not task.done()]",
+  "                done, pending = await asyncio.wait(self._tasks, timeout=0)\n                self._tasks = [task for task in self._tasks if task in pending]", rule="R6")
+M("C10", "tidy-filters-in-one-step-twin", "async_tasks.py", "                self._tasks = [task for task in self._tasks if not task.done()]",
+  "                live = [task for task in self._tasks if not task.done()]\n                self._tasks = live", expect="silent")
+M("C11", "switch-is-on-by-label-index", "automation/switch.py", "        return self._state_sensor.state != \"OFF\"", "        return self._accessor.items.index(self._state_sensor.state) > 0", rule="R10")
+M("C12", "enum-decode-bound-off-by-one", "driver/accessor.py", "            try:\n                data = self.items[data]\n            except IndexError:\n                data = \"Unknown\"",
+  "            if data > len(self.items):\n                data = \"Unknown\"\n            else:\n                data = self.items[data]", rule="R11")
+M("C16", "reqrm-number-as-text", "driver/protocol/reminders.py", "            content=b\"\".join([REQRM_VERB, struct.pack(\">B\", seq)]),", "            content=REQRM_VERB + chr(seq).encode(),", rule="R8")
+M("C16", "reqrm-number-as-latin1-text-twin", "driver/protocol/reminders.py", "            content=b\"\".join([REQRM_VERB, struct.pack(\">B\", seq)]),", "            content=REQRM_VERB + bytes([seq]),", expect="silent")
+M("C19", "log-reader-memoised-by-path", "utils/snapshot.py", "    @staticmethod\n    def parse_log_file(file: str):", "    @staticmethod\n    @__import__(\"functools\").lru_cache(maxsize=32)\n    def parse_log_file(file: str):", rule="R1")
+M("C20", "loop-hook-reads-raising-property", "spa.py", "    def _loop_func(self):\n        if self._is_connected:\n            return", "    def _loop_func(self):\n        if self.is_connected:\n            return", rule="R7")
+M("C08", "connect-treats-false-block-as-some", "async_spa.py", "        if not await self.struct.get(\n            self._protocol,\n            lambda: GeckoStatusBlockProtocolHandler.full_request(\n                self._protocol.get_and_increment_sequence_counter(False),\n                parms=self.sendparms,\n            ),\n        ):",
+  "        if (await self.struct.get(\n            self._protocol,\n            lambda: GeckoStatusBlockProtocolHandler.full_request(\n                self._protocol.get_and_increment_sequence_counter(False),\n                parms=self.sendparms,\n            ),\n        )) is None:", rule="I1")
